@@ -457,7 +457,7 @@ def extras(prop, tier, seed):
     if prop != "C05":
         return []
     from pyvc.report import run_bounded
-    return [run_bounded("substitution", tier, seed)]
+    return [run_bounded("substitution", tier, seed), run_bounded("interpretations", tier, seed)]
 
 
 def variants(world, tier="quick", only=None):
@@ -486,6 +486,164 @@ def variants(world, tier="quick", only=None):
             for n in (0, 1) + ((2,) if tier == "thorough" else ()):
                 out.append(BinderVariant(world, cls, Kop, n))
     out.append(SubstituteArgsVariant(world))
+    if only:
+        out = [v for v in out if any(o in v.name for o in only)]
+    return out
+
+
+# ---------------------------------------------------------------------------
+# function interpretations: FunctionInterpretation.interpret and Substituter.walk_function
+# ---------------------------------------------------------------------------
+FI = "pysmt.substituter.FunctionInterpretation"
+
+
+class InterpretVariant(Variant):
+    """interpret(env, actuals): the body with every formal parameter replaced by its actual argument SIMULTANEOUSLY - one
+    call of the environment's substitution (a new walker of its class) on the body with the map {formal_i: actual_i}; an
+    error for a wrong number of arguments."""
+    prop_ids = ("C05",)
+    bounded = "arity"
+
+    def __init__(self, world, k, given):
+        self.world, self.k, self.given = world, k, given
+        self.qualname = FI + ".interpret"
+        self.name = "interpretation:interpret[%d formals/%d actuals]" % (k, given)
+
+    def setup(self, ex):
+        W = self.world
+        env = core.make_env(ex, W)
+        self.body = z3.Const("function_body", Node)
+        W.touch(ex, self.body)
+        self.formals = [z3.Const("formal%d" % i, Node) for i in range(self.k)]
+        self.actuals = [z3.Const("actual%d" % i, Node) for i in range(self.given)]
+        for x in self.formals + self.actuals:
+            W.touch(ex, x)
+        if self.k > 1:
+            ex.assume(z3.Distinct(self.formals))
+        self.calls = []
+        v = self
+
+        def substitute(exx, a, kw):
+            v.calls.append((a[1] if len(a) > 1 else kw.get("formula"), a[2] if len(a) > 2 else kw.get("subs")))
+            r = exx.fresh("substituted_body", Node)
+            W.touch(exx, r)
+            return r
+        cls = env.fields["_substituter"].cls if "_substituter" in env.fields else "pysmt.substituter.MGSubstituter"
+
+        class NewSubstituter(Contract):
+            qualname = "new:" + cls
+
+            def apply(self, exx, a, kw):
+                o = Obj(cls, {"env": a[0] if a else kw.get("env")}, tag="new-substituter")
+                o.fields["substitute"] = Builtin("substitute", substitute, bound=o)
+                return o
+        c = NewSubstituter()
+        c.world = W
+        W.contracts[c.qualname] = c
+        self.fi = Obj(FI, {"formal_params": list(self.formals), "function_body": self.body}, tag="interpretation")
+        fn = W.repo.func(self.qualname)
+        return W.wrap_func(fn, fn.module, bound=self.fi), [env, list(self.actuals)], {}
+
+    def check(self, ex, outcome):
+        kind, r = outcome
+        if self.k != self.given:
+            return [("wrong-number-of-arguments-is-an-error", z3.BoolVal(kind == "raise"))]
+        if kind == "raise":
+            return [("no-exception", z3.BoolVal(False))]
+        goals = [("one-simultaneous-substitution", z3.BoolVal(len(self.calls) == 1))]
+        if len(self.calls) != 1:
+            return goals
+        f, subs = self.calls[0]
+        goals.append(("on-the-body", (f == self.body) if is_node(f) else z3.BoolVal(False)))
+        items = subs.items if isinstance(subs, DictVal) else (list(subs.items()) if isinstance(subs, dict) else None)
+        ok = items is not None and len(items) == self.k
+        goals.append(("map-is-formal-to-actual", z3.And([z3.And(kk == a, vv == b) for (kk, vv), a, b in zip(items, self.formals, self.actuals)])
+                      if ok and self.k else z3.BoolVal(bool(ok))))
+        goals.append(("returns-the-substituted-body", (r == ex.ghost.get("last_substituted", r)) if is_node(r) else z3.BoolVal(False)))
+        return goals
+
+
+class WalkFunctionVariant(Variant):
+    """Substituter.walk_function on f(x1..xk) with the already substituted arguments: if f has an interpretation the result is
+    that interpretation applied to the new arguments (in order); otherwise the application is rebuilt on them."""
+    prop_ids = ("C05",)
+    bounded = "arity"
+
+    def __init__(self, world, k, interpreted):
+        self.world, self.k, self.interpreted = world, k, interpreted
+        self.qualname = "pysmt.substituter.Substituter.walk_function"
+        self.name = "interpretation:walk_function[%d args/%s]" % (k, "interpreted" if interpreted else "uninterpreted")
+
+    def setup(self, ex):
+        W = self.world
+        env = core.make_env(ex, W)
+        install_walker_support(W)
+        f = z3.Const("application", Node)
+        W.touch(ex, f)
+        ex.assume(S.op(f) == S.FUNCTION)
+        W.learn(ex, f, op=S.FUNCTION, k=self.k)
+        self.formula = f
+        fname = S.pl_node(f)
+        self.args = [z3.Const("new%d" % i, Node) for i in range(self.k)]
+        for i, a in enumerate(self.args):
+            W.touch(ex, a)
+            ex.assume(S.type_of(a) == S.type_of(S.arg(f, S.K(i))))
+        self.calls = []
+        v = self
+
+        def interpret(exx, a, kw):
+            v.calls.append((a[1] if len(a) > 1 else kw.get("env"), a[2] if len(a) > 2 else kw.get("actual_params")))
+            r = exx.fresh("interpreted", Node)
+            W.touch(exx, r)
+            v.result = r
+            return r
+        other = z3.Const("other_function", Node)
+        ex.assume(other != fname)
+        io = Obj(FI, {}, tag="interpretation")
+        io.fields["interpret"] = Builtin("interpret", interpret, bound=io)
+        io2 = Obj(FI, {}, tag="other-interpretation")
+        io2.fields["interpret"] = Builtin("interpret", lambda exx, a, kw: exx.fresh("wrong_interpretation", Node), bound=io2)
+        items = [[other, io2]] + ([[fname, io]] if self.interpreted else [])
+        w = make_walker(ex, W, "pysmt.substituter.MGSubstituter", env)
+        self.env = env
+        fi = W.repo.func(self.qualname)
+        return W.wrap_func(fi, fi.module, bound=w), [f], {"args": list(self.args), "substitutions": DictVal(), "interpretations": DictVal(items)}
+
+    def check(self, ex, outcome):
+        kind, r = outcome
+        if kind == "raise":
+            return [("no-exception", z3.BoolVal(False))]
+        if not is_node(r):
+            return [("returns-node", z3.BoolVal(False))]
+        if self.interpreted:
+            goals = [("interpretation-applied-once", z3.BoolVal(len(self.calls) == 1))]
+            if len(self.calls) == 1:
+                e, actual = self.calls[0]
+                acts = BI.iterate(self.world, ex, actual) if actual is not None else []
+                ok = len(acts) == self.k
+                goals.append(("to-the-new-arguments-in-order", z3.And([a == b for a, b in zip(acts, self.args)]) if ok and self.k else z3.BoolVal(bool(ok))))
+                goals.append(("in-this-environment", z3.BoolVal(e is self.env)))
+                goals.append(("result-is-the-interpretation's", r == self.result))
+            return goals
+        rb = ex.ghost.get("rebuilt")
+        goals = [("no-interpretation-used", z3.BoolVal(len(self.calls) == 0)),
+                 ("application-rebuilt-on-the-new-arguments", (r == rb) if rb is not None else z3.BoolVal(False))]
+        if rb is not None:
+            goals.append(("rebuild-uses-new-children", z3.BoolVal(len(ex.ghost["rebuilt_args"]) == len(self.args) and all(
+                x.eq(y) for x, y in zip(ex.ghost["rebuilt_args"], self.args)))))
+        return goals
+
+
+_base_variants5 = variants
+
+
+def variants(world, tier="quick", only=None):
+    out = _base_variants5(world, tier, None)
+    for k, g in ((1, 1), (2, 2), (3, 3), (2, 1), (1, 2)):
+        out.append(InterpretVariant(world, k, g))
+    for k in (1, 2):
+        for interp in (True, False):
+            out.append(WalkFunctionVariant(world, k, interp))
     if only:
         out = [v for v in out if any(o in v.name for o in only)]
     return out
